@@ -337,6 +337,23 @@ func timedOracle(name string, check func(cScenario, cResult) (string, string)) f
 				}()
 			}
 		}
+		if name == "c11" {
+			// Close right after New, nothing in between (free-running, not in a bubble)
+			for _, v6 := range []bool{false, true} {
+				rounds := 300
+				if thorough {
+					rounds = 3000
+				}
+				line := fmt.Sprintf("newclose v6=%v rounds=%d", v6, rounds)
+				cliNoteLine(line)
+				late, what := cliNewCloseProbe(v6, rounds)
+				res.Evaluations++
+				res.Tags["close-right-after-new"]++
+				if late > 0 {
+					res.fail(Failure{Oracle: name, Input: line, What: what, Class: "read-after-close"})
+				}
+			}
+		}
 		if thorough {
 			for _, v6 := range []bool{false, true} {
 				enumTimed(v6)(func(l string) {
